@@ -96,7 +96,7 @@ theorem compileGUFast_eq {K : Type} [Zero K] [One K] [Add K] [Mul K] [Neg K] [De
   have : (freezeNet : Nat → Net K → Net K) = fun _ a => a := by
     funext n a
     simp only [freezeNet, ofTable_tabulate, ofTableV_tabulateV]
-  simp only [compileGUFast, compileGU, this]
+  simp only [compileGUFast, compileGU, compileGUWith, this]
 
 theorem compilePFast_eq {K : Type} [Zero K] [One K] [Add K] [Mul K]
     (registers : List Nat) (cmds : List (PCmd K)) : compilePFast registers cmds = compileP registers cmds := by
@@ -358,7 +358,7 @@ theorem compileGU_net [DecidableEq K] (registers : List Nat) (cmds : List (GCmd 
     intro m hm
     obtain ⟨c, hc, hmc⟩ := List.mem_flatMap.1 hm
     exact hreg c hc m hmc
-  simp only [compileGU, compileGUWith, hregs, netSpecGU]
+  simp only [compileGU, compileGUWith, compileGUCore, hregs, netSpecGU]
   refine ⟨trivial, trivial, ?_⟩
   refine foldlGU_refines (dictIdx (usedModes cmds)) _ cmds ?_ _ _ ⟨fun _ _ _ => rfl, fun _ _ => rfl⟩
   intro c hc
@@ -450,6 +450,26 @@ theorem compileP_net (registers : List Nat) (cmds : List (PCmd K))
   · intro m hm m' _ e
     exact idxOf_inj (hmem hc hm) e
 
+/-- the pre-fix code agrees with the repaired code when the hash order of the used modes happens to be
+ascending and no command is daggered -/
+theorem compileGUOld_eq [DecidableEq K] (registers : List Nat) (cmds : List (GCmd K))
+    (hd : ∀ c ∈ cmds, c.dagger = false) :
+    compileGUOld (usedModes cmds) registers cmds = compileGU registers cmds := by
+  have hfold : ∀ (l : List (GCmd K)) (a : Net K), (∀ c ∈ l, c.dagger = false) →
+      l.foldl (fun a c => stepGU (dictIdx (usedModes cmds)) (usedModes cmds).length a { c with dagger := false }) a
+        = l.foldl (fun a c => stepGU (dictIdx (usedModes cmds)) (usedModes cmds).length a c) a := by
+    intro l
+    induction l with
+    | nil => intro a _; rfl
+    | cons c cs ih =>
+      intro a h
+      have hc : ({ c with dagger := false } : GCmd K) = c := by
+        have := h c (by simp)
+        cases c; simp_all
+      simp only [List.foldl_cons, hc]
+      exact ih _ (fun d hd' => h d (by simp [hd']))
+  simp only [compileGUOld, compileGU, compileGUWith, compileGUCore, hfold cmds _ hd]
+
 /-! emission -/
 
 theorem isIdent_spec [DecidableEq K] (m : Nat) (S : Mat K) (h : isIdent m S = true) :
@@ -469,7 +489,7 @@ theorem compileGU_emit [DecidableEq K] (registers : List Nat) (cmds : List (GCmd
       e = ((compileGU registers cmds).regs.getD i 0, (compileGU registers cmds).r i,
         (compileGU registers cmds).r (i + (compileGU registers cmds).n)) ∧
       ¬ ((compileGU registers cmds).r i = 0 ∧ (compileGU registers cmds).r (i + (compileGU registers cmds).n) = 0)) := by
-  simp only [compileGU, compileGUWith]
+  simp only [compileGU, compileGUWith, compileGUCore]
   generalize List.foldl (stepGU (dictIdx (usedModes cmds)) (usedModes cmds).length)
     ({ S := ident, r := fun _ => 0 } : Net K) cmds = net
   refine ⟨?_, ?_, ?_⟩
@@ -568,5 +588,139 @@ theorem checkMerge_legal (src out : List Cmd) (blocks : List MergeBlock) (segs :
   · cases h
 
 end merge
+
+end SFV.GC
+
+/-! ### gaussian_merge: what every topological order of the graph after the surgery guarantees -/
+namespace SFV.GC
+
+/-- position in `out` with all merged commands collapsed onto the representative `rep` -/
+def cpos (ms : List Cmd) (rep : Cmd) (out : List Cmd) (c : Cmd) : Nat :=
+  if c ∈ ms then out.idxOf rep else out.idxOf c
+
+/-- "strictly earlier after collapsing, or both merged" -/
+def CR (ms : List Cmd) (rep : Cmd) (out : List Cmd) (x y : Cmd) : Prop :=
+  cpos ms rep out x < cpos ms rep out y ∨ (x ∈ ms ∧ y ∈ ms)
+
+theorem CR_trans {ms : List Cmd} {rep : Cmd} {out : List Cmd} {x y z : Cmd}
+    (h1 : CR ms rep out x y) (h2 : CR ms rep out y z) : CR ms rep out x z := by
+  unfold CR at *
+  rcases h1 with h1 | ⟨hx, hy⟩ <;> rcases h2 with h2 | ⟨hy', hz⟩
+  · exact Or.inl (Nat.lt_trans h1 h2)
+  · left
+    have : cpos ms rep out y = cpos ms rep out z := by simp [cpos, hy', hz]
+    omega
+  · left
+    have : cpos ms rep out x = cpos ms rep out y := by simp [cpos, hx, hy]
+    omega
+  · exact Or.inr ⟨hx, hz⟩
+
+/-- if the relation holds along the consecutive pairs of a wire's row it holds for every ordered pair on it -/
+theorem row_CR (ms : List Cmd) (rep : Cmd) (out l : List Cmd) (w : Nat)
+    (hcons : ∀ e ∈ consecPairs (gridRow l w), CR ms rep out e.1 e.2) {a b : Cmd}
+    (hrow : Before (gridRow l w) a b) : CR ms rep out a b := by
+  have hchain : List.IsChain (CR ms rep out) (gridRow l w) := consecPairs_chain _ _ hcons
+  have : IsTrans Cmd (CR ms rep out) := ⟨fun _ _ _ h1 h2 => CR_trans h1 h2⟩
+  have hpw : List.Pairwise (CR ms rep out) (gridRow l w) := List.isChain_iff_pairwise.1 hchain
+  exact (List.pairwise_iff_forall_sublist.1 hpw) hrow
+
+theorem consecPairs_mem_right : ∀ {r : List Cmd} {e : Cmd × Cmd}, e ∈ consecPairs r → e.2 ∈ r
+  | [], _, h => by simp [consecPairs] at h
+  | [_], _, h => by simp [consecPairs] at h
+  | a :: b :: rest, e, h => by
+    simp only [consecPairs, List.mem_cons] at h
+    rcases h with rfl | h
+    · simp
+    · have := consecPairs_mem_right (r := b :: rest) h
+      exact List.mem_cons_of_mem _ this
+
+theorem before_row {l : List Cmd} {a b : Cmd} {w : Nat} (hb : Before l a b) (hwa : w ∈ a.wires)
+    (hwb : w ∈ b.wires) : Before (gridRow l w) a b := by
+  have := hb.filter (fun c => c.wires.contains w)
+  simpa [gridRow, hwa, hwb] using this
+
+/-- **order guarantees of the surgery, relative to the first emitted command.**  In every list in which all
+edges of the graph after the surgery point forward: two commands that stay and share a wire keep their
+order; a command that stays and shares a wire with a merged command that follows (precedes) it in the
+circuit comes before (after) the first emitted command. -/
+theorem surgery_order (l ms ds : List Cmd) (g : Cmd) (out : List Cmd)
+    (hf : forward (surgeryEdges l ms g ds) out = true) {a b : Cmd} (hb : Before l a b) (hd : dep a b) :
+    CR ms g out a b := by
+  obtain ⟨w, hwa, hwb⟩ := hd
+  have hmem := before_mem hb
+  refine row_CR ms g out l w ?_ (before_row hb hwa hwb)
+  intro e he
+  have hedge : e ∈ dagEdges l := row_edges_mem hmem.1 hwa e he
+  simp only [forward, List.all_eq_true, decide_eq_true_eq] at hf
+  unfold CR cpos
+  by_cases h1 : e.1 ∈ ms <;> by_cases h2 : e.2 ∈ ms
+  · exact Or.inr ⟨h1, h2⟩
+  · left
+    simp only [h1, h2, if_true, if_false]
+    refine hf (g, e.2) ?_
+    simp only [surgeryEdges, List.mem_append, List.mem_flatMap]
+    exact Or.inl ⟨e, hedge, by simp [h1, h2]⟩
+  · left
+    simp only [h1, h2, if_true, if_false]
+    refine hf (e.1, g) ?_
+    simp only [surgeryEdges, List.mem_append, List.mem_flatMap]
+    exact Or.inl ⟨e, hedge, by simp [h1, h2]⟩
+  · left
+    simp only [h1, h2, if_false]
+    refine hf e ?_
+    simp only [surgeryEdges, List.mem_append, List.mem_flatMap]
+    exact Or.inl ⟨e, hedge, by simp [h1, h2]⟩
+
+/-- **… and relative to an emitted displacement gate `d` on mode `q`** (circuits without measured-parameter
+dependencies on `q`): a command that stays, acts on `q` and follows a merged command acting on `q` comes
+after `d`. -/
+theorem surgery_order_disp (l ms ds : List Cmd) (g d : Cmd) (out : List Cmd) (q : Nat)
+    (hf : forward (surgeryEdges l ms g ds) out = true) (hd : d ∈ ds) (hq : q ∈ d.regs)
+    (hregs : ∀ c ∈ l, q ∈ c.wires → q ∈ c.regs)
+    {a b : Cmd} (hb : Before l a b) (ha : q ∈ a.wires) (hbq : q ∈ b.wires) (ham : a ∈ ms) (hbm : b ∉ ms) :
+    out.idxOf d < out.idxOf b := by
+  have hmem := before_mem hb
+  have hgd : out.idxOf g < out.idxOf d := by
+    simp only [forward, List.all_eq_true, decide_eq_true_eq] at hf
+    refine hf (g, d) ?_
+    simp only [surgeryEdges, List.mem_append, List.mem_map]
+    exact Or.inr ⟨d, hd, rfl⟩
+  have key : CR ms d out a b := by
+    refine row_CR ms d out l q ?_ (before_row hb ha hbq)
+    intro e he
+    have hedge : e ∈ dagEdges l := row_edges_mem hmem.1 ha e he
+    have he2 : e.2 ∈ gridRow l q := by
+      have := consecPairs_mem_right he
+      exact this
+    have he2l : e.2 ∈ l ∧ q ∈ e.2.wires := by
+      simpa [gridRow] using he2
+    simp only [forward, List.all_eq_true, decide_eq_true_eq] at hf
+    unfold CR cpos
+    by_cases h1 : e.1 ∈ ms <;> by_cases h2 : e.2 ∈ ms
+    · exact Or.inr ⟨h1, h2⟩
+    · left
+      simp only [h1, h2, if_true, if_false]
+      refine hf (d, e.2) ?_
+      simp only [surgeryEdges, List.mem_append, List.mem_flatMap]
+      refine Or.inl ⟨e, hedge, ?_⟩
+      have hs : sharesReg d e.2 = true := by
+        simp only [sharesReg, List.any_eq_true, List.contains_iff_mem]
+        exact ⟨q, hq, hregs e.2 he2l.1 he2l.2⟩
+      simp [h1, h2, hd, hs]
+    · left
+      simp only [h1, h2, if_true, if_false]
+      have : out.idxOf e.1 < out.idxOf g := by
+        refine hf (e.1, g) ?_
+        simp only [surgeryEdges, List.mem_append, List.mem_flatMap]
+        exact Or.inl ⟨e, hedge, by simp [h1, h2]⟩
+      omega
+    · left
+      simp only [h1, h2, if_false]
+      refine hf e ?_
+      simp only [surgeryEdges, List.mem_append, List.mem_flatMap]
+      exact Or.inl ⟨e, hedge, by simp [h1, h2]⟩
+  rcases key with h | ⟨_, h⟩
+  · simpa [cpos, ham, hbm] using h
+  · exact absurd h hbm
 
 end SFV.GC
